@@ -20,7 +20,7 @@ def run(ctx):
     common.proof_side(ctx, THEOREMS)
     drv = common.Driver()
     rng = ctx.rng
-    n = 45 if ctx.tier == "quick" else 900
+    n = 120 if ctx.tier == "quick" else 900
 
     def per_case(case, res):
         if "const_is_output" in case.info["tags"]:
